@@ -95,3 +95,16 @@ func (r *R) Geom(mean, max int) int {
 }
 
 func Pick[T any](r *R, xs []T) T { return xs[r.Intn(len(xs))] }
+
+// Perm returns a seeded permutation of 0..n-1.
+func (r *R) Perm(n int) []int {
+	p := make([]int, n)
+	for i := range p {
+		p[i] = i
+	}
+	for i := n - 1; i > 0; i-- {
+		j := r.Intn(i + 1)
+		p[i], p[j] = p[j], p[i]
+	}
+	return p
+}
